@@ -23,6 +23,9 @@ FIXED_TYPES = [
     alias("AliasOpt", opt(prim("STRING")), PKG),
     alias("AliasList", lst(prim("INTEGER")), PKG),
     alias("AliasAlias", R("AliasOpt"), PKG),
+    alias("AliasAliasList", R("AliasList"), PKG),
+    alias("AliasMap", mp(prim("STRING"), prim("INTEGER")), PKG),
+    alias("AliasAliasMap", R("AliasMap"), PKG),
     alias("AliasBin", prim("BINARY"), PKG),
 ]
 
@@ -30,7 +33,8 @@ EXT = external("Foreign", "com.elsewhere", prim("STRING"))
 
 PRIM_LEAVES = [(p.lower(), prim(p)) for p in PRIMS]
 REF_LEAVES = [("E", R("E")), ("Obj", R("Obj")), ("ObjD", R("ObjD")), ("Un", R("Un")), ("AliasStr", R("AliasStr")), ("AliasDbl", R("AliasDbl")),
-              ("AliasOpt", R("AliasOpt")), ("AliasList", R("AliasList")), ("AliasAlias", R("AliasAlias")), ("AliasBin", R("AliasBin")), ("Ext", EXT)]
+              ("AliasOpt", R("AliasOpt")), ("AliasList", R("AliasList")), ("AliasAlias", R("AliasAlias")), ("AliasBin", R("AliasBin")), ("Ext", EXT),
+              ("AliasAliasList", R("AliasAliasList")), ("AliasAliasMap", R("AliasAliasMap"))]
 OPTIONAL_LIKE = {"AliasOpt", "AliasAlias"}
 
 KEYS_FULL = [("string", prim("STRING")), ("integer", prim("INTEGER")), ("safelong", prim("SAFELONG")), ("double", prim("DOUBLE")), ("boolean", prim("BOOLEAN")),
